@@ -12,22 +12,74 @@ def tyOf (r : NT) : Ty := (r.inputs, r.shape)
 
 /-! ### Typing commutes with evaluation, op by op -/
 
-theorem unaryOp_pointwise (op : Op) (a : NT) (h : pointwiseUn.contains op.name = true) :
-    unaryOp op a = unary op.name a := by
-  simp only [pointwiseUn, List.contains_eq_mem, List.mem_cons, List.mem_nil_iff, or_false, decide_eq_true_eq] at h
-  unfold unaryOp
-  rcases h with h | h | h | h | h <;> rw [h] <;> simp [reductionOps, List.lookup]
+/-- Row-wise operations: the result type is the one read off a zero array. -/
+theorem mapRows_ty (f : Sem → Option Sem) (hf : ShapeOnly f) (a : NT) :
+    (mapRows f a).map tyOf = tyMapRows f (a.inputs, a.shape) := by
+  unfold mapRows tyMapRows
+  cases hp : f (a.row (a.inputs.map fun _ => 0)) with
+  | none =>
+    cases hz : f ⟨a.shape, fun _ => 0⟩ with
+    | none => rfl
+    | some z =>
+      obtain ⟨r', hr', _⟩ := hf ⟨a.shape, fun _ => 0⟩ (a.row (a.inputs.map fun _ => 0)) rfl z hz
+      rw [hp] at hr'; cases hr'
+  | some pr =>
+    obtain ⟨z, hz, hsh⟩ := hf (a.row (a.inputs.map fun _ => 0)) ⟨a.shape, fun _ => 0⟩ rfl pr hp
+    simp only [hz, Option.map_some, tyOf, hsh]
 
-theorem unary_ty (op : Op) (a : NT) : (unaryOp op a).map tyOf = tyUnary op (a.inputs, a.shape) ∨
-    tyUnary op (a.inputs, a.shape) = none := by
-  unfold tyUnary
-  cases hB : pointwiseUn.contains op.name
-  · right; simp
-  · left
-    rw [unaryOp_pointwise op a hB]
-    unfold unary
-    rw [if_pos hB]
-    rfl
+theorem reductionAxis_ty (base : String) (axes : Option (List Int)) (keep : Bool) (a : NT) :
+    (reductionAxis base axes keep a).map tyOf = tyReductionAxis base axes keep (a.inputs, a.shape) := by
+  unfold reductionAxis tyReductionAxis
+  cases hb : outReduceOps.contains base
+  · simp
+  · simp only [Bool.not_true, Bool.false_eq_true, if_false]
+    generalize a.shape.isEmpty = B2
+    generalize a.inputs.isEmpty = B3
+    cases B2
+    · cases B3
+      · simp only [Bool.false_eq_true, if_false]
+        cases axes with
+        | none => exact mapRows_ty _ (shapeOnly_reduceAxes base hb none keep) a
+        | some l =>
+          simp only
+          generalize l.all (axisValid a.shape.length) = B4
+          cases B4
+          · simp
+          · simp only [if_true]
+            exact mapRows_ty _ (shapeOnly_reduceAxes base hb _ keep) a
+      · simp only [Bool.false_eq_true, if_false, if_true]
+        exact mapRows_ty _ (shapeOnly_reduceAxes base hb axes keep) a
+    · simp only [if_true]
+      cases axes with
+      | none => exact mapRows_ty _ (shapeOnly_reduceAxes base hb none keep) a
+      | some l => simp
+
+theorem unary_ty (op : Op) (a : NT) : (unaryOp op a).map tyOf = tyUnary op (a.inputs, a.shape) := by
+  unfold unaryOp tyUnary
+  cases reductionOps.lookup op.name with
+  | some base =>
+    simp only
+    cases redArgs op with
+    | none => rfl
+    | some ak => obtain ⟨axes, keep⟩ := ak; exact reductionAxis_ty base axes keep a
+  | none =>
+    simp only
+    generalize (op.name == "reshape") = B1
+    generalize (op.name == "getslice") = B2
+    cases B1
+    · cases B2
+      · simp only [Bool.false_eq_true, if_false]
+        unfold unary
+        generalize pointwiseUn.contains op.name = B
+        cases B <;> simp [tyOf]
+      · simp only [Bool.false_eq_true, if_false, if_true]
+        cases (paramOf op.params "index").bind parseIdxItems with
+        | none => rfl
+        | some items => exact mapRows_ty _ (shapeOnly_getslice items) a
+    · simp only [if_true]
+      cases (paramOf op.params "shape").bind Sexp.asNats? with
+      | none => rfl
+      | some sh => exact mapRows_ty _ (shapeOnly_reshape sh) a
 
 theorem reduce1_ty (op : String) (vars : List (Name × Nat)) (a : NT) :
     (reduce op vars a).map tyOf = tyReduce1 op vars (a.inputs, a.shape) := by
@@ -82,6 +134,127 @@ theorem eagerReduce_ty (op : String) (vars : List (Name × Nat)) (a : NT) :
     · exact reduce1_ty op P a
   exact key _ _ _ _
 
+theorem binary_ty' (op : Op) (a b : NT) (h : (op.name == "getitem") = false) :
+    (binary op.name a b).map tyOf = tyBinary op (a.inputs, a.shape) (b.inputs, b.shape) := by
+  have := binary_ty op a b h
+  unfold binaryOp at this
+  simpa [h] using this
+
+theorem getitem_ty (offset : Nat) (a b : NT) :
+    (getitem offset a b).map tyOf = tyGetitem offset (a.inputs, a.shape) b := by
+  unfold getitem tyGetitem binInputs
+  cases hd : a.shape[offset]? with
+  | none => simp [hd]
+  | some d =>
+    simp only [hd]
+    generalize (b.shape == [] && SubDict a.inputs (unionIns a.inputs b.inputs) &&
+      SubDict b.inputs (unionIns a.inputs b.inputs) &&
+      (allIdx b.sizes).all (fun i => match xrToNat? (b.data i) with
+          | some k => decide (k < d)
+          | none => false)) = B
+    cases B <;> simp [tyOf]
+
+theorem subsGen_ty (σ : List (Name × NT)) (a : NT) :
+    (subsGen σ a).map tyOf = tySubsGen σ (a.inputs, a.shape) := by
+  unfold subsGen tySubsGen
+  unfold NT.names
+  generalize (decide ((σ.map (·.1)).Nodup) &&
+     σ.all (fun q => (a.inputs.map (·.1)).contains q.1 && SubDict q.2.inputs (subsInputs a.inputs σ)) &&
+     a.inputs.all (fun p => match σ.lookup p.1 with
+        | some v => idxCheck v p.2
+        | none => (subsInputs a.inputs σ).lookup p.1 == some p.2)) = B
+  cases B <;> simp [tyOf]
+
+theorem idxLeaf_pevalIdx : ∀ (t : Term) (v : NT), idxLeaf t = some v → pevalIdx t = some v
+  | Term.var m d, v, h => by
+    obtain ⟨dt, sh⟩ := d
+    cases dt with
+    | real => simp [idxLeaf] at h
+    | bint s =>
+      cases sh with
+      | nil => simpa [idxLeaf, pevalIdx] using h
+      | cons _ _ => simp [idxLeaf] at h
+  | Term.slice _ _ _ _ _, v, h => by simpa [idxLeaf, pevalIdx] using h
+  | Term.num _ _, v, h => by simpa [idxLeaf, pevalIdx] using h
+  | Term.tensor _ _ _, v, h => by simpa [idxLeaf, pevalIdx] using h
+  | Term.unary _ _, v, h => by simp [idxLeaf] at h
+  | Term.binary _ _ _, v, h => by simp [idxLeaf] at h
+  | Term.reduce _ _ _, v, h => by simp [idxLeaf] at h
+  | Term.subs _ _, v, h => by simp [idxLeaf] at h
+  | Term.stack _ _, v, h => by simp [idxLeaf] at h
+  | Term.cat _ _ _ _, v, h => by simp [idxLeaf] at h
+  | Term.lambda _ _ _, v, h => by simp [idxLeaf] at h
+  | Term.independent _ _ _ _ _, v, h => by simp [idxLeaf] at h
+  | Term.align _ _, v, h => by simp [idxLeaf] at h
+  | Term.contraction _ _ _ _, v, h => by simp [idxLeaf] at h
+  | Term.finitary _ _, v, h => by simp [idxLeaf] at h
+  | Term.delta _, v, h => by simp [idxLeaf] at h
+
+theorem idxLeaves_pevalSubs : ∀ (σ : List (Name × Term)) (σv : List (Name × NT)),
+    idxLeaves σ = some σv → pevalSubs σ = some σv := by
+  intro σ
+  induction σ with
+  | nil => intro σv h; simpa [idxLeaves, pevalSubs] using h
+  | cons hd rest ih =>
+    intro σv h
+    obtain ⟨k, t⟩ := hd
+    simp only [idxLeaves] at h
+    split at h
+    · rename_i v vs hv hvs
+      cases h
+      simp only [pevalSubs, idxLeaf_pevalIdx t v hv, ih vs hvs]
+    · cases h
+
+theorem foldl_ty (rs : List NT) : ∀ (acc : List (Name × Nat)),
+    (rs.map tyOf).foldl (fun acc p => odUpdate acc p.1) acc = rs.foldl (fun acc p => odUpdate acc p.inputs) acc := by
+  induction rs with
+  | nil => intro acc; rfl
+  | cons r rs ih => intro acc; simp only [List.map_cons, List.foldl_cons, tyOf]; exact ih _
+
+theorem mapM_ty (pn : Name) (rs : List NT) :
+    (rs.map tyOf).mapM (fun p => p.1.lookup pn) = rs.mapM (fun p => p.inputs.lookup pn) := by
+  induction rs with
+  | nil => rfl
+  | cons r rs ih => simp only [List.map_cons, List.mapM_cons, ih, tyOf]
+
+theorem zip_ty_all (P : List (Name × Nat) → Nat → Bool) : ∀ (l : List NT) (sizes : List Nat),
+    ((l.map tyOf).zip sizes).all (fun ps => P ps.1.1 ps.2) = (l.zip sizes).all (fun ps => P ps.1.inputs ps.2) := by
+  intro l
+  induction l with
+  | nil => intro sizes; rfl
+  | cons r l ih =>
+    intro sizes
+    cases sizes with
+    | nil => rfl
+    | cons k ks => simp only [List.map_cons, List.zip_cons_cons, List.all_cons, ih ks, tyOf]
+
+theorem catSizes_ty (pn : Name) (rs : List NT) : tyCatSizes pn (rs.map tyOf) = catSizes pn rs := by
+  unfold tyCatSizes catSizes; exact mapM_ty pn rs
+
+theorem cat_ty (n pn : Name) (rs : List NT) : (cat n pn rs).map tyOf = tyCat n pn (rs.map tyOf) := by
+  cases rs with
+  | nil => simp [cat, tyCat]
+  | cons r0 rs' =>
+    unfold cat tyCat
+    simp only [List.map_cons]
+    rw [← List.map_cons (f := tyOf), foldl_ty, mapM_ty]
+    generalize odErase ((r0 :: rs').foldl (fun acc p => odUpdate acc p.inputs) [(pn, 0)]) pn = rest
+    cases hs : (r0 :: rs').mapM (fun p => p.inputs.lookup pn) with
+    | none => simp
+    | some sizes =>
+      simp only
+      have h1 : ((r0 :: rs').map tyOf).all (fun p => p.2 == (tyOf r0).2) =
+          (r0 :: rs').all (fun p => p.shape == r0.shape) := by
+        rw [List.all_map]; rfl
+      have h2 : (((r0 :: rs').map tyOf).zip sizes).all (fun ps => SubDict ps.1.1 ((pn, ps.2) :: rest)) =
+          ((r0 :: rs').zip sizes).all (fun ps => SubDict ps.1.inputs ((pn, ps.2) :: rest)) := by
+        exact zip_ty_all (fun i k => SubDict i ((pn, k) :: rest)) (r0 :: rs') sizes
+      rw [h1, h2]
+      generalize ((r0 :: rs').all (fun p => p.shape == r0.shape) &&
+          ((r0 :: rs').zip sizes).all (fun ps => SubDict ps.1.inputs ((pn, ps.2) :: rest)) &&
+          !(rest.map (·.1)).contains n) = B
+      cases B <;> simp [tyOf]
+
 theorem unionAll_ty (rs : List NT) : ∀ (acc : List (Name × Nat)),
     (rs.map tyOf).foldl (fun acc p => odUpdate acc p.1) acc = rs.foldl (fun acc p => odUpdate acc p.inputs) acc := by
   induction rs with
@@ -133,22 +306,30 @@ mutual
       · rename_i ta hta
         obtain ⟨ra, hra, hty⟩ := peval_total_core a ta hta
         subst hty
-        obtain ⟨r, hr, hrt⟩ := map_tyOf_some ((unary_ty op ra).elim (fun e => e.trans h) (fun e => by have h' : tyUnary op (ra.inputs, ra.shape) = some τ := h; rw [e] at h'; cases h'))
+        obtain ⟨r, hr, hrt⟩ := map_tyOf_some ((unary_ty op ra).trans h)
         exact ⟨r, by simp only [peval, hra, hr], hrt⟩
       · cases h
     | Term.binary op l rr, τ, h => by
       simp only [typeOf] at h
       split at h
-      · rename_i ta tb hta htb
-        obtain ⟨ra, hra, hty⟩ := peval_total_core l ta hta
-        obtain ⟨rb, hrb, hty'⟩ := peval_total_core rr tb htb
-        subst hty; subst hty'
-        cases hg : op.name == "getitem" with
-        | true => rw [binary_ty_getitem op _ _ hg] at h; cases h
-        | false =>
-          obtain ⟨r, hr, hrt⟩ := map_tyOf_some ((binary_ty op ra rb hg).trans h)
-          exact ⟨r, by simp only [peval, hra, hrb, hr], hrt⟩
-      · cases h
+      · rename_i hg
+        split at h
+        · rename_i ta vb hta hvb
+          obtain ⟨ra, hra, hty⟩ := peval_total_core l ta hta
+          subst hty
+          obtain ⟨r, hr, hrt⟩ := map_tyOf_some ((getitem_ty (getitemOffset op) ra vb).trans h)
+          exact ⟨r, by simp only [peval, hg, if_true, hra, idxLeaf_pevalIdx rr vb hvb, hr], hrt⟩
+        · cases h
+      · rename_i hg
+        have hg' : (op.name == "getitem") = false := by simpa using hg
+        split at h
+        · rename_i ta tb hta htb
+          obtain ⟨ra, hra, hty⟩ := peval_total_core l ta hta
+          obtain ⟨rb, hrb, hty'⟩ := peval_total_core rr tb htb
+          subst hty; subst hty'
+          obtain ⟨r, hr, hrt⟩ := map_tyOf_some ((binary_ty' op ra rb hg').trans h)
+          exact ⟨r, by simp only [peval, hg', Bool.false_eq_true, if_false, hra, hrb, hr], hrt⟩
+        · cases h
     | Term.reduce op arg vars, τ, h => by
       simp only [typeOf] at h
       split at h
@@ -161,12 +342,20 @@ mutual
     | Term.subs arg σ, τ, h => by
       simp only [typeOf] at h
       split at h
-      · rename_i ta σn hta hσ
+      · cases h
+      · rename_i ta hta
         obtain ⟨ra, hra, hty⟩ := peval_total_core arg ta hta
         subst hty
-        obtain ⟨r, hr, hrt⟩ := map_tyOf_some ((subsNum_ty σn ra).trans h)
-        exact ⟨r, by simp only [peval, hra, hσ, hr], hrt⟩
-      · cases h
+        split at h
+        · rename_i σn hσ
+          obtain ⟨r, hr, hrt⟩ := map_tyOf_some ((subsNum_ty σn ra).trans h)
+          exact ⟨r, by simp only [peval, hra, hσ, hr], hrt⟩
+        · rename_i hσ
+          split at h
+          · rename_i σv hσv
+            obtain ⟨r, hr, hrt⟩ := map_tyOf_some ((subsGen_ty σv ra).trans h)
+            exact ⟨r, by simp only [peval, hra, hσ, idxLeaves_pevalSubs σ σv hσv, hr], hrt⟩
+          · cases h
     | Term.stack n parts, τ, h => by
       simp only [typeOf] at h
       split at h
@@ -187,7 +376,19 @@ mutual
       · cases h
     | Term.var _ _, τ, h => by simp [typeOf] at h
     | Term.slice _ _ _ _ _, τ, h => by simp [typeOf] at h
-    | Term.cat _ _ _ _, τ, h => by simp [typeOf] at h
+    | Term.cat n pn sizes parts, τ, h => by
+      simp only [typeOf] at h
+      split at h
+      · rename_i ts hts
+        obtain ⟨rs, hrs, hty⟩ := pevalList_total parts ts hts
+        subst hty
+        split at h
+        · rename_i hsz
+          rw [catSizes_ty] at hsz
+          obtain ⟨r, hr, hrt⟩ := map_tyOf_some ((cat_ty n pn rs).trans h)
+          exact ⟨r, by simp only [peval, hrs, hsz, if_true, hr], hrt⟩
+        · cases h
+      · cases h
     | Term.independent _ _ _ _ _, τ, h => by simp [typeOf] at h
     | Term.align _ _, τ, h => by simp [typeOf] at h
     | Term.contraction _ _ _ _, τ, h => by simp [typeOf] at h
